@@ -50,6 +50,10 @@ M('C03', 'return-before-verify', CV,
 M('C03', 'client-cache-in-loop1', 'mithril-client/src/certificate_client/verify.rs',
   'current_certificate.as_ref().is_some_and(|c| c.epoch != start_epoch);\n                    if has_crossed_epoch_boundary {',
   'current_certificate.as_ref().is_some_and(|c| c.epoch != start_epoch);\n                    if has_crossed_epoch_boundary || current_certificate.is_some() {', ['verify_chain'], 'cache phase entered without crossing an epoch boundary')
+M('C03', 'cached-link-hash-unchecked', 'mithril-client/src/certificate_client/verify.rs',
+  'if certificate.hash != hash {', 'if certificate.hash.is_empty() {', ['client:cached-link-hash'], 'the certificate served for a cached link is not compared with the requested hash (F12 reintroduced)')
+M('C03', 'cached-link-hash-wrong-operand', 'mithril-client/src/certificate_client/verify.rs',
+  'if certificate.hash != hash {', 'if certificate.hash != certificate.hash.clone() {', ['client:cached-link-hash'], 'the served hash is compared with itself')
 
 # ---------------------------------------------------------------- C02
 CLERK = STM + 'proof_system/concatenation/clerk.rs'
